@@ -83,11 +83,11 @@ func init() {
 		verifrtPath + ".Float64": func(m *Machine, fr *frame, a []value) value { return m.inputFloat(64) },
 		verifrtPath + ".Float32": func(m *Machine, fr *frame, a []value) value { return m.inputFloat(32) },
 		verifrtPath + ".Bytes": func(m *Machine, fr *frame, a []value) value {
-			n := int(a[0].(int64))
+			n := int(m.concretizeInt(a[0], intInfo{64, true}))
 			return m.inputBytes(n)
 		},
 		verifrtPath + ".String": func(m *Machine, fr *frame, a []value) value {
-			n := int(a[0].(int64))
+			n := int(m.concretizeInt(a[0], intInfo{64, true}))
 			return mkStr(m.inputBytes(n))
 		},
 		verifrtPath + ".Choose": func(m *Machine, fr *frame, a []value) value {
